@@ -1068,6 +1068,20 @@ fn step_node<C: HCfg>(
                 return;
             }
             Action::Sleep { us } => ggrs::verif_hooks::advance_us(*us),
+            Action::Poll => {
+                let drain = if ni < scn.peers.len() { scn.peers[ni].drain } else { true };
+                let r = catch_unwind(AssertUnwindSafe(|| match &mut n.sess {
+                    Sess::P(s) => s.poll_remote_clients(),
+                    Sess::S(s) => s.poll_remote_clients(),
+                }));
+                if let Err(p) = r {
+                    let m = panic_msg(p);
+                    cx.v("PANIC", "panic", ni, format!("poll_remote_clients panicked: {m}"));
+                    n.tr.crashed = Some(m);
+                    return;
+                }
+                drain_events(n, rel, drain);
+            }
             a => {
                 let Sess::P(s) = &mut n.sess else { continue };
                 let cur_frame = s.current_frame();
@@ -1079,7 +1093,7 @@ fn step_node<C: HCfg>(
                         .map(|_| String::new()),
                     Action::NetStats { handle } => s.network_stats(*handle).map(|st| format!("{st:?}")),
                     Action::AdvanceWithoutInput => s.advance_frame().map(|r| format!("{} requests", r.len())),
-                    Action::Die | Action::Sleep { .. } => unreachable!(),
+                    Action::Die | Action::Sleep { .. } | Action::Poll => unreachable!(),
                 }));
                 let (res, detail) = match r {
                     Ok(Ok(d)) => (R_OK, d),
